@@ -604,9 +604,10 @@ structure Repaired (cfg : Cfg) : Prop where
   f4 : cfg.rollbackAdopt = true
   f5 : cfg.identityCheck = true
   f6 : cfg.relabelByMembership = true
-  f7 : cfg.replacePrecheck = true
 
-theorem repaired_repaired (fuel : Nat) : Repaired (Cfg.repaired fuel) := ⟨rfl, rfl, rfl, rfl, rfl, rfl, rfl⟩
+theorem repaired_repaired (fuel : Nat) : Repaired (Cfg.repaired fuel) := ⟨rfl, rfl, rfl, rfl, rfl, rfl⟩
+/-- the tree after the four `fix:` commits (without the replace pre-check F7) -/
+theorem sixFixes_repaired (fuel : Nat) : Repaired (Cfg.sixFixes fuel) := ⟨rfl, rfl, rfl, rfl, rfl, rfl⟩
 
 /-- what the property asks of one operation: accepted ⇒ the invariant holds afterwards;
 rejected ⇒ nothing changed (a `RecursionError` from Python's recursion limit set aside) -/
@@ -1345,7 +1346,8 @@ theorem replaceChild_refused (cfg : Cfg) (t : Tree) (p old new : Nat)
 /-- repaired `replace_child`: either nothing changed, or it was accepted (or Python's recursion
 limit was hit): once the ownership side has been validated up front, the `add_child` that
 follows the removal of the old child and the label swap cannot refuse any more -/
-theorem replaceChild_outcome {cfg : Cfg} (hr : Repaired cfg) {t : Tree} (h : WFTree t) (p old new : Nat) :
+theorem replaceChild_outcome {cfg : Cfg} (hr : Repaired cfg) (h7 : cfg.replacePrecheck = true)
+    {t : Tree} (h : WFTree t) (p old new : Nat) :
     (replaceChild cfg t p old new).1 = t ∨ (replaceChild cfg t p old new).2 = .ok ∨
       (replaceChild cfg t p old new).2 = .recursionError := by
   unfold replaceChild
@@ -1368,7 +1370,7 @@ theorem replaceChild_outcome {cfg : Cfg} (hr : Repaired cfg) {t : Tree} (h : WFT
           right
           have hck : cyclicCheck cfg t p new = .ok ∧ t.kind new ≠ .workflow := by
             unfold replacePre at hpre
-            rw [if_pos hr.f7] at hpre
+            rw [if_pos h7] at hpre
             rcases cyclicCheck_cases cfg t p new with hc | hc | hc
             · rw [hc] at hpre
               refine ⟨hc, ?_⟩
@@ -1444,22 +1446,23 @@ theorem replaceChild_outcome {cfg : Cfg} (hr : Repaired cfg) {t : Tree} (h : WFT
             simp only at hrec; subst hrec
             rfl
 
-theorem replaceChild_good {cfg : Cfg} (hr : Repaired cfg) {t : Tree} (h : WFTree t) (p old new : Nat) :
-    Good t (replaceChild cfg t p old new) := by
+theorem replaceChild_good {cfg : Cfg} (hr : Repaired cfg) (h7 : cfg.replacePrecheck = true)
+    {t : Tree} (h : WFTree t) (p old new : Nat) : Good t (replaceChild cfg t p old new) := by
   refine ⟨fun hok => replaceChild_wf hr h p old new (by rw [hok]; decide), fun hne hrec => ?_⟩
-  rcases replaceChild_outcome hr h p old new with e | e | e
+  rcases replaceChild_outcome hr h7 h p old new with e | e | e
   · exact e
   · exact absurd e hne
   · exact absurd e hrec
 
-theorem replaceChildLabel_good {cfg : Cfg} (hr : Repaired cfg) {t : Tree} (h : WFTree t) (p : Nat)
-    (l : Str) (new : Nat) : Good t (replaceChildLabel cfg t p l new) := by
+theorem replaceChildLabel_good {cfg : Cfg} (hr : Repaired cfg) (h7 : cfg.replacePrecheck = true)
+    {t : Tree} (h : WFTree t) (p : Nat) (l : Str) (new : Nat) :
+    Good t (replaceChildLabel cfg t p l new) := by
   unfold replaceChildLabel
   split
   · exact good_same h _
   · split
     · exact good_same h _
-    · exact replaceChild_good hr h p _ new
+    · exact replaceChild_good hr h7 h p _ new
 
 
 /-! ## operations and histories -/
@@ -1476,8 +1479,9 @@ def Op.isReplace : Op → Bool
   | .replaceLabel .. => true
   | _ => false
 
-theorem step_good {cfg : Cfg} (hr : Repaired cfg) {t : Tree} (h : WFTree t) (op : Op)
-    (hpre : OpPre t op) : Good t (step cfg t op) := by
+/-- F1–F6: every entry point other than `replace_child` -/
+theorem step_good_nonreplace {cfg : Cfg} (hr : Repaired cfg) {t : Tree} (h : WFTree t) (op : Op)
+    (hpre : OpPre t op) (hnr : op.isReplace = false) : Good t (step cfg t op) := by
   cases op with
   | new c l np => exact newNode_good hr h c l np hpre
   | add p c lbl s => exact addChild_good hr h p c lbl s
@@ -1485,19 +1489,42 @@ theorem step_good {cfg : Cfg} (hr : Repaired cfg) {t : Tree} (h : WFTree t) (op 
   | setparent c np => exact assignParent_good hr h c np
   | remove p c => exact removeChild_good cfg h p c
   | removeLabel p l => exact removeChildLabel_good cfg h p l
-  | replace p o n => exact replaceChild_good hr h p o n
-  | replaceLabel p l n => exact replaceChildLabel_good hr h p l n
+  | replace p o n => simp [Op.isReplace] at hnr
+  | replaceLabel p l n => simp [Op.isReplace] at hnr
   | setStarting p l =>
     exact ⟨fun _ => setStarting_wf h p l (fun s hs => mem_vals.mp (hpre.1 s hs)) hpre.2, fun hn => absurd rfl hn⟩
+
+/-- F1–F7: every entry point -/
+theorem step_good {cfg : Cfg} (hr : Repaired cfg) (h7 : cfg.replacePrecheck = true) {t : Tree}
+    (h : WFTree t) (op : Op) (hpre : OpPre t op) : Good t (step cfg t op) := by
+  cases op with
+  | replace p o n => exact replaceChild_good hr h7 h p o n
+  | replaceLabel p l n => exact replaceChildLabel_good hr h7 h p l n
+  | _ => exact step_good_nonreplace hr h _ hpre rfl
+
+theorem replaceChildLabel_wf {cfg : Cfg} (hr : Repaired cfg) {t : Tree} (h : WFTree t) (p : Nat)
+    (l : Str) (new : Nat) : (replaceChildLabel cfg t p l new).2 ≠ .recursionError →
+    WFTree (replaceChildLabel cfg t p l new).1 := by
+  unfold replaceChildLabel
+  split
+  · exact fun _ => h
+  · split
+    · exact fun _ => h
+    · exact replaceChild_wf hr h p _ new
 
 /-- every operation, accepted or rejected, leaves a well-formed tree (unless Python's recursion
 limit was hit on the way) -/
 theorem step_wf {cfg : Cfg} (hr : Repaired cfg) {t : Tree} (h : WFTree t) (op : Op)
     (hpre : OpPre t op) (hrec : (step cfg t op).2 ≠ .recursionError) : WFTree (step cfg t op).1 := by
-  have g := step_good hr h op hpre
-  by_cases hok : (step cfg t op).2 = .ok
-  · exact g.1 hok
-  · rw [g.2 hok hrec]; exact h
+  by_cases hnr : op.isReplace = false
+  · have g := step_good_nonreplace hr h op hpre hnr
+    by_cases hok : (step cfg t op).2 = .ok
+    · exact g.1 hok
+    · rw [g.2 hok hrec]; exact h
+  · cases op with
+    | replace p o n => exact replaceChild_wf hr h p o n hrec
+    | replaceLabel p l n => exact replaceChildLabel_wf hr h p l n hrec
+    | _ => simp [Op.isReplace] at hnr
 
 /-- a history all of whose steps meet `OpPre` and stay within the recursion limit -/
 def Admissible (cfg : Cfg) : Tree → List Op → Prop
